@@ -116,10 +116,11 @@ PROPS["C03"] = {
                  "relaxed_load_no_edge", "relaxed_store_breaks"]],
     "layers": ["vc", "mux", "once"],
     "tie": ["NsyncVerif.Proofs.TieOrders", "NsyncVerif.Proofs.TieSites"],
+    "harness_args": ["plain=1"],     # log nsync's own plain accesses to registered objects: raced-checked by the vc layer
     "oracles": {"vc"},
     "plan": {"quick": [("core", 80, 6), ("cv", 50, 6), ("muwait", 50, 6), ("once", 60, 6), ("ctr", 60, 6)],
              "thorough": [("core", 800, 12), ("cv", 500, 12), ("muwait", 500, 12), ("once", 600, 12), ("ctr", 600, 12), ("mixed", 500, 12)]},
-    "level_text": "Kernel-checked theorems: (1) over the MuX protocol with declared orders and ghost vector clocks — the release clock of the mutex word always covers every past release point (C03_release_chain), so whatever a thread did before giving up its share happens before the continuation of every thread that later comes to own a share, for all interleavings and any number of threads, using only acquire/release strength and the C++20 release-sequence rule (C03_unlock_happens_before_lock); the acceptor requires acquire on every share/spinlock-taking write, release on every share/spinlock-releasing write and release on the plain stores (C03_orders_required); (2) over the generic vector-clock machine — the message-passing theorem (release write, then only RMWs / dominated release stores, then acquire read ⇒ happens-before) that the once / note / counter / signal hand-offs instantiate. Tied to the code by lockstep: every atomic operation of every explored execution goes through the vc layer (which also checks the five hand-offs of the statement on the real executions: data-race detector for mutex-protected data, once end→return, note set→observation, counter zero→wait return, signal→woken return) and the mutex word's operations through MuX's order checks.",
+    "level_text": "Kernel-checked theorems: (1) over the MuX protocol with declared orders and ghost vector clocks — the release clock of the mutex word always covers every past release point (C03_release_chain), so whatever a thread did before giving up its share happens before the continuation of every thread that later comes to own a share, for all interleavings and any number of threads, using only acquire/release strength and the C++20 release-sequence rule (C03_unlock_happens_before_lock); the acceptor requires acquire on every share/spinlock-taking write, release on every share/spinlock-releasing write and release on the plain stores (C03_orders_required); (2) over the generic vector-clock machine — the message-passing theorem (release write, then only RMWs / dominated release stores, then acquire read ⇒ happens-before) that the once / note / counter / signal hand-offs instantiate. Tied to the code by lockstep: every atomic operation of every explored execution goes through the vc layer (which also checks the five hand-offs of the statement on the real executions: data-race detector for mutex-protected client data AND for nsync's own plain fields (compiler-instrumented accesses to queue links, waiter records, note and counter fields), once end→return, note set→observation, counter zero→wait return, signal→woken return) and the mutex word's operations through MuX's order checks.",
     "level_note": "The once / note / counter / signal edges are proved as instances of the generic message-passing theorem only informally: that each layer's return path reads, with acquire, a value written with release is enforced by the layer acceptors' order checks and verified on every explored execution by the vc layer, but the product of each layer model with the clock machine is not yet a theorem (partial). Orders of sites no explored schedule reaches are not covered by lockstep. SC interleavings only, as the property specifies.",
 }
 
